@@ -5,7 +5,8 @@ tls : every C01 pipeline scenario is run twice inside one path (exp_meta off / o
       and the ClientHello and ServerHello records must appear verbatim as packets of their own."""
 
 VALIDATE = True
-SITES = ["no-exception", "plain-packets-preserved-in-order", "extras-are-handshake-material", "hello-records-verbatim"]
+SITES = ["no-exception", "plain-packets-preserved-in-order", "extras-are-handshake-material", "hello-records-verbatim",
+         "quic-stream-data-preserved-in-order"]
 MODELS = ["as C01 (ideal cryptography, recorder scapy, dpkt spec parser)"]
 ASSUMPTIONS = ["as C01", "packets of the two runs are aligned by syntactic identity of their payload terms (both runs decrypt the same symbolic ciphertexts)"]
 
@@ -31,6 +32,16 @@ def configs(tier, seed):
             seen.add(kk)
             sel.append(c)
         out = sel
+    from tlv.harness import c02
+    for c in c02.configs(tier, seed):
+        if tier == "quick" and not (c["name"].endswith("cid8.4.8") or c["name"].endswith("cid8.0.8")):
+            continue
+        if tier == "quick" and c["suite"] != 0x1301 and not c["name"].startswith("%04x-basic" % c["suite"]):
+            continue
+        c = dict(c)
+        c["name"] = "meta-quic-" + c["name"]
+        c["harness"] = "quic-meta"
+        out.append(c)
     return out
 
 
@@ -53,7 +64,68 @@ def _chunks(out, ep):
     return res
 
 
+def _find_blocks(blocks, payloads, same):
+    """Order-preserving placement of each (dir, block) as a contiguous run inside the payloads of the same direction."""
+    j, off = 0, 0
+    for d, blk in blocks:
+        placed = False
+        while j < len(payloads):
+            pd, pl = payloads[j]
+            if pd == d:
+                k = off
+                while k + len(blk) <= len(pl):
+                    if same(pl[k:k + len(blk)], blk):
+                        placed = True
+                        off = k + len(blk)
+                        break
+                    k += 1
+                if placed:
+                    break
+            j += 1
+            off = 0
+        if not placed:
+            return False
+    return True
+
+
+def _run_quic(cfg):
+    from tlv.sx.core import ctx
+    from tlv.sx.symbytes import as_symbytes
+    from tlv.harness import pipeline as P, c02
+    from tlv.harness.common import explore_cfg
+    from tlv.oracle import scenario as SC, quic_scenario as QS
+    from cryptography._model import same_terms
+    mods = P.setup_symbolic()
+
+    def scenario():
+        c = ctx()
+        src = SC.SymSrc()
+        dgrams, keylog, meta = QS.build(cfg, src)
+        c02.assume_cids_prefix_free(c, meta)
+        c02.assume_no_accidental_cid(c, meta, dgrams)
+        runs = []
+        try:
+            for meta_on in (False, True):
+                ep = P.Endpoint(ipv=cfg.get("ipv", 4))
+                out, sessions = P.run_quic(mods, P.udp_frames(ep, dgrams), P.keylog_objects(mods, keylog), metadata=meta_on)
+                runs.append([(d, as_symbytes(load).e) for d, load, ts in P.udp_payloads(out, ep) if d is None or len(load) > 0])
+        except Exception as e:
+            import traceback
+            c.fail("no-exception", "%s: %s %s" % (type(e).__name__, e, traceback.format_exc().splitlines()[-3:-1]))
+            return {"outcome": "exception"}
+        c.check(True, "no-exception")
+        plain, meta_out = runs
+        want = [(d.from_server, as_symbytes(d.stream).e) for d in dgrams if d.stream is not None and len(d.stream) > 0]
+        ok_plain = len(plain) == len(want) and all(p[0] == w[0] and same_terms(p[1], w[1]) for p, w in zip(plain, want))
+        c.check(ok_plain and _find_blocks(plain, meta_out, same_terms), "quic-stream-data-preserved-in-order",
+                "plain %s, with -a %s" % ([(d, len(x)) for d, x in plain], [(d, len(x)) for d, x in meta_out]))
+        return {"outcome": "plain %d, -a %d datagrams" % (len(plain), len(meta_out))}
+    return explore_cfg(scenario, cfg, timeout_ms=60000, sample_paths=1)
+
+
 def run_config(cfg):
+    if cfg["harness"] == "quic-meta":
+        return _run_quic(cfg)
     from tlv.sx.core import ctx, sym_or, sym_and
     from tlv.sx.symbytes import as_symbytes
     from tlv.harness import pipeline as P
@@ -105,7 +177,31 @@ def run_config(cfg):
     return explore_cfg(scenario, cfg, timeout_ms=60000, sample_paths=1)
 
 
+def _concrete_quic(cfg, inp):
+    from tlv import e2e
+    from tlv.harness import pipeline as P
+    from tlv.oracle import scenario as SC, quic_scenario as QS
+    dgrams, keylog, meta = QS.build(cfg, SC.ConcreteSrc(inp))
+    res = []
+    for args in ((), ("-a",)):
+        ep = P.Endpoint(ipv=cfg.get("ipv", 4))
+        r = e2e.run_tlexport(e2e.concrete_udp_frames(ep, dgrams), e2e.keylog_text(keylog), args=args)
+        if r["problems"]:
+            return {"ok": False, "problems": r["problems"][:3]}
+        res.append([(d, p) for d, p, t in e2e.udp_of(r, ep) if len(p) > 0])
+    plain, meta_out = res
+    want = [(d.from_server, bytes(d.stream)) for d in dgrams if d.stream is not None and len(d.stream) > 0]
+    problems = []
+    if plain != want:
+        problems.append("plain export %s differs from the stream data sent %s" % (plain, want))
+    if not _find_blocks(plain, meta_out, lambda a, b: a == b):
+        problems.append("stream data %s not found in order in the -a export %s" % ([(d, p.hex()) for d, p in plain], [(d, p.hex()[:80]) for d, p in meta_out]))
+    return {"ok": not problems, "problems": problems}
+
+
 def _concrete(cfg, inp):
+    if cfg["harness"] == "quic-meta":
+        return _concrete_quic(cfg, inp)
     from tlv import e2e
     from tlv.harness import pipeline as P
     from tlv.oracle import scenario as SC
